@@ -231,7 +231,7 @@ def short_api(name):
         return "Option::" + tail
     if "Result" in name:
         return "Result::" + tail
-    if "for str" in name or "impl str" in name:
+    if "for str" in name or "impl str" in name or name.startswith("<std::string::String as std::ops::Index"):
         return "str::" + tail
     if "[T]" in name:
         return "slice::" + tail
@@ -370,9 +370,21 @@ def guard_loop_minus_const(site):
     return None
 
 
+def is_str_slice(site):
+    """a range slice of a str / String: besides `end <= len` it needs both ends on a char boundary,
+    which no length argument gives - only the full range is mechanical (seed C18i: the error
+    preview `lossy[..min(len, 20)]` cut a 3-byte U+FFFD)"""
+    return site.kind == "index" and str(site.api).startswith("str::index")
+
+
 def t1_common(site):
     """guards shared by every ledger user"""
     x = site.extra
+    if is_str_slice(site):
+        a = x.get("args") or []
+        if len(a) == 2 and a[1][0] == "agg" and a[1][1].endswith("RangeFull::RangeFull"):
+            return "full-range slice `x[..]` cannot fail"
+        return None
     if site.kind in ("overflow", "bounds", "index"):
         r = guard_loop_minus_const(site)
         if r:
